@@ -82,24 +82,36 @@ def case(spec, log):
             elif name == 'attach':
                 cls = PersistentWorker.create.__func__
                 kw = {'host': host()} if op[1] == 'REMOTE' else {}
+                # a worker meant for a pool is created with a waitable results pipe; every third one with the
+                # kind's default queue, which attach() has to refuse (thread/remote) instead of poisoning later runs
+                from pyworkers.utils import Pipe as _Pipe
+                waitable = (step % 3 != 2) or op[1] == 'PROCESS'
+                if waitable:
+                    kw['results_pipe'] = _Pipe()
                 w = PersistentWorker.create(WorkerType[op[1]], vtargets.pool_target2, **kw)
-                note(w, 'attached')
-                bounded('attach', lambda: p.attach(w), 30)
+                r = bounded('attach', lambda: p.attach(w), 30)
+                if isinstance(r, Raised):
+                    log.ev('attach_refused', waitable=waitable, kind=op[1], etype=type(r.exc).__name__)
+                    w.terminate(timeout=1, **({'force': False} if w.is_thread or w.is_remote else {}))
+                else:
+                    log.ev('attached', waitable=waitable, kind=op[1])
+                    note(w, 'attached')
             elif name == 'run':
                 run_no += 1
                 n = op[1]
                 rid = run_no
                 poison = op[2] if len(op) > 2 else []
                 inputs = [[rid, i, (i in poison)] for i in range(n)]
+                live_at_start = sum(1 for w in p.workers if w.is_alive())
                 r = bounded('run', lambda: p.run(iter(inputs), worker_callback=cb, worker_extra_pending_inputs=op[3] if len(op) > 3 else 0), 90)
                 if r is HANG:
                     p._map_guard = False
                     log.ev('run', run=rid, outcome='hang')
                 elif isinstance(r, Raised):
                     part = getattr(r.exc, 'partial_results', None)
-                    log.ev('run', run=rid, outcome='raised:' + type(r.exc).__name__, n=n, results=part if part is not None else None, alive=[w.is_alive() for _, w in all_workers])
+                    log.ev('run', run=rid, outcome='raised:' + type(r.exc).__name__, n=n, results=part if part is not None else None, alive=[w.is_alive() for _, w in all_workers], poison=poison, live_at_start=live_at_start)
                 else:
-                    log.ev('run', run=rid, outcome='returned', n=n, results=r, poison=poison)
+                    log.ev('run', run=rid, outcome='returned', n=n, results=r, poison=poison, live_at_start=live_at_start)
             elif name == 'restart':
                 r = bounded('restart_workers', lambda: p.restart_workers(timeout=1), 90)
                 log.ev('restart', outcome=('hang' if r is HANG else 'raised:' + type(r.exc).__name__ if isinstance(r, Raised) else 'ok'))
@@ -192,6 +204,12 @@ def gen_history(r):
         elif x < 0.92:
             ops.append(['stick', r.randrange(10)])
             stuck = True
+    if r.random() < 0.25 and not stuck:
+        # a failed run (every worker dies on a poisonous input) followed by new/restarted workers and a harmless run
+        n = r.randint(2, 8)
+        ops.append(['run', n, [r.randrange(n)], r.randint(0, 2)])
+        ops.append(r.choice([['restart'], ['add', r.choice(KINDS)]]))
+        ops.append(['run', r.randint(1, 8), [], r.randint(0, 1)])
     ops.append(['leave', r.choice(['exit', 'exit', 'exit-exc', 'close', 'terminate'])])
     # force=True on a stuck *thread* worker is documented to SIGTERM the whole process: only combine force=True with histories without stuck workers
     return dict(ops=ops, close_timeout=r.choice([0.2, 1]), force=(None if stuck else r.choice([None, None, True])))
@@ -229,6 +247,10 @@ def judge(chk, spec, res):
             if not has_stuck:
                 probs.append('run-blocks')
             continue
+        # a run with harmless inputs on a pool that has live workers (nobody is killed during a run) must complete:
+        # the pool stays usable whatever earlier runs went through
+        if e['outcome'].startswith('raised') and not e.get('poison') and e.get('live_at_start', 0) >= 1 and not has_stuck:
+            probs.append('harmless-run-on-live-pool-%s' % e['outcome'])
         vals = e.get('results')
         if vals is None:
             continue
@@ -239,6 +261,11 @@ def judge(chk, spec, res):
             probs.append('duplicate-result-in-run')
         if e['outcome'] == 'returned' and sorted(i[1] for i in ids if i) != list(range(e['n'])):
             probs.append('returned-run-misses-inputs')
+    for e in evs:
+        if e.get('ev') == 'attach_refused' and e['waitable']:
+            probs.append('attach-of-waitable-worker-refused')
+        if e.get('ev') == 'attached' and not e['waitable']:
+            probs.append('attach-accepted-worker-that-cannot-be-multiplexed')
     ho = [e for e in evs if e.get('ev') == 'handouts']
     if ho:
         dead_handouts = [h for h in ho[0]['handouts'] if h[2] is False]
